@@ -333,6 +333,8 @@ def stepGo (fs : Files) (rootData : Option Json) (cx : Cx) (text : String) (k : 
       let dsrc := match cdoc with | some u => storeKey u | none => ""
       -- `Header` embeds `Parameter` without a yaml tag: drillIntoField finds no field of a header, so every
       -- pointer that passes through a header object is a drill error (→ raw re-read)
+      let tab := enumDoc ⟨none, none⟩ "" dj
+      let typedNode (_ : Json) (p : List String) : Option CNode := tab.find? (·.ptr == p)
       let throughHeader := (List.range toks.length).any (fun i => (typedNode dj (toks.take i)).any (fun n => n.kind == .header && n.ref.isNone) && i > 0)
       match (if throughHeader then none else typedNode dj toks) with
       | some tn => if tn.kind = k then .node ⟨cdoc, cpath⟩ ⟨cdoc, cdoc⟩ dsrc toks true load else .fail
